@@ -19,6 +19,8 @@
 //	env         os.Getenv / LookupEnv / Environ / Hostname / Getwd / Getpid / UserHomeDir / Args / TempDir … (process environment)
 //	tz          time.Local, time.LoadLocation, time.Unix* (values in the LOCAL zone), Time.Local / Zone / Location
 //	reflect-map reflect.Value.MapKeys / MapRange (map iteration through reflection)
+//	process-state-holder package-level variable of mutable type (map, slice, pointer, interface, chan, func, sync.*, struct holding one):
+//	            a place where process-local state CAN live; every one is listed so that a new one is a finding by itself
 //	process-state write to process-local mutable state (field of a keeper / module / hook / ante struct, package-level
 //	            variable) outside constructors — see procstate.go
 //	typed-event call of cosmos-sdk EventManager.EmitTypedEvent(s) / TypedEventToEvent (v0.45.2 builds the attribute
@@ -719,6 +721,7 @@ func main() {
 			}
 			rep.Files++
 			c := &collector{fset: p.Fset, info: p.TypesInfo, rel: rel, sites: all, ps: resident}
+			c.holders(f)
 			for _, d := range f.Decls {
 				switch x := d.(type) {
 				case *ast.FuncDecl:
